@@ -30,7 +30,8 @@ pub fn eval(c: &Sx) -> String {
 fn run(out: &mut Out, ops: &[String]) {
     let case = format!("(heap {})", ops.join(" "));
     let sx = crate::sexp::parse(&case).unwrap();
-    let obs = eval(&sx);
+    // a panic of the evaluated code (or a failed harness expectation) is an observation: the driver reports it with this case
+    let obs = std::panic::catch_unwind(std::panic::AssertUnwindSafe(|| eval(&sx))).unwrap_or_else(|_| "(harness-panic 1)".to_string());
     out.emit(&case, &obs);
 }
 
